@@ -3,15 +3,16 @@ package main
 func init() {
 	checks["C07"] = &checkDef{
 		Level:       levelOther,
-		Explanation: "Symbolic-time execution of the real lru and NewSimpleCacheAdapter stores (Flight → Update → Flight) and of RedisMessage.setExpireAt/getExpireAt/relativePTTL/CacheTTL/CachePTTL/CachePXAT. All instants are symbolic Unix milliseconds: request start t0, client TTL of any sign, reply arrival t1 ≥ t0, server PTTL over the whole int range (so -2, -1, 0 and positive values are all included), query time t2 ≥ t1, static-TTL flag symbolic. time.Time values with a symbolic instant are an engine value kind whose Add/Sub/UnixMilli/Before/After/Now are intrinsics (linear bit-vector arithmetic on milliseconds). Oracle: committed expiry = min(t0+ttl, t1+pttl if pttl ≥ 0 and not static); the second Flight is a hit exactly when t2 < expiry; CachePXAT = expiry, CachePTTL = expiry - t2, CacheTTL = ceil(CachePTTL/1000) (checked for remaining times below 2^20 ms).",
+		Explanation: "Symbolic-time execution of the real lru and NewSimpleCacheAdapter stores (Flight → Update → Flight) and of RedisMessage.setExpireAt/getExpireAt/relativePTTL/CacheTTL/CachePTTL/CachePXAT. All instants are symbolic Unix milliseconds: request start t0, client TTL of any sign, reply arrival t1 ≥ t0, server PTTL over the whole int range (so -2, -1, 0 and positive values are all included), query time t2 ≥ t1, static-TTL flag symbolic. time.Time values with a symbolic instant are an engine value kind whose Add/Sub/UnixMilli/Before/After/Now are intrinsics (linear bit-vector arithmetic on milliseconds). Batched lookups (lru.Flights, VerifC07_batch): 2..3 commands with independent symbolic client TTLs, each already cached, already in flight or missed: every missed command is put in flight with exactly its own TTL. Oracle: committed expiry = min(t0+ttl, t1+pttl if pttl ≥ 0 and not static); the second Flight is a hit exactly when t2 < expiry; CachePXAT = expiry, CachePTTL = expiry - t2, CacheTTL = ceil(CachePTTL/1000) (checked for remaining times below 2^20 ms).",
 		Assumptions: []string{"all durations are whole milliseconds; |values| < 2^40 ms; 0 < t0+ttl (the 7-byte expiry field; 0 is the no-expiry sentinel)", "the reader's commit step (cp.setExpireAt(now.Add(pttl ms).UnixMilli()) when pttl ≥ 0, then CacheStore.Update) is transcribed from pipe.go into the harness; the real reader is exercised under C06"},
 		Trusted:     []string{"symbolic time.Time intrinsics (engine/symtime.go)"},
-		Outside:     []string{"sub-millisecond TTLs; expiries beyond 2^55 ms", "the MGET commit branch (same three statements per element)"},
+		Outside:     []string{"sub-millisecond TTLs; expiries beyond 2^55 ms", "the MGET commit branch (same three statements per element)", "batches of more than 3 commands in lru.Flights"},
 		Bounds:      map[string]any{"quick": "one entry, one update, one later read; all times symbolic", "thorough": "same"},
 		specs: func(tier string) []specRef {
 			return []specRef{
 				hsx(rootPkg, "VerifC07_lru", nil, 100000, 1800, "clientttl", "serverttl", "hit", "expired"),
 				hsx(rootPkg, "VerifC07_adapter", nil, 100000, 1800, "clientttl", "serverttl", "hit", "expired"),
+				hsx(rootPkg, "VerifC07_batch", nil, 100000, 1800, "missed"),
 			}
 		},
 	}
